@@ -16,6 +16,7 @@ RULE = ('envelope: every payload length 1..4100 (all residues mod 3 and mod 48) 
         'reported (exception or the "Incorrect crc24" warning) unless the decoded payload is unchanged. Non-trivial: payload >= 49 octets, or '
         'a corruption case, or an object with headers; distinct by (length, fill, input form) / (kind, header count) / (block, position, char).')
 RULE += ' The checksum field is also replaced wholesale by 000000, FFFFFF, the CRC-24 initial value and neighbours, and payloads whose true CRC is 000000 are corrupted like the others. Header values are any printable text (with \': \' inside, empty, UTF-8), surroundings may be non-ASCII; the caller\'s bytearray is untouched and loads twice; the \'=\' of the checksum line and single characters replaced by non-ASCII / control characters count as corruptions.'
+RULE += ' Several damaged inputs are loaded in one process under the default warning filter: each must be reported.'
 ASSUMPTIONS = ['refpgp.armor is an independent section 6 reader/writer; its CRC-24 is checked against the published check value 0x21CF02',
                'the CRC warning is PGPy\'s reporting channel for a payload that does not match its CRC', 'a block without checksum line is well formed (RFC 4880 6.1: the checksum MAY appear)']
 
@@ -405,8 +406,40 @@ def w_corrupt(arg):
     return rec
 
 
+def w_repeated(arg):
+    """several damaged inputs in one process, under Python's default warning filter (which shows a warning once per code location): every
+    one of them must be reported, not only the first -- the warning is the only channel the caller has"""
+    seed = arg
+    Blob = blob_class()
+    rec = harness.Rec()
+    texts = []
+    for j in range(4):
+        b = Blob()
+        b.data = fill(40 + 7 * j + seed % 5, 'rnd')
+        t = str(b)
+        lines = t.split('\n')
+        body_i = [i for i, l in enumerate(lines) if l and not l.startswith('-') and ':' not in l and not l.startswith('=')][0]
+        ch = lines[body_i][3]
+        lines[body_i] = lines[body_i][:3] + ('A' if ch != 'A' else 'B') + lines[body_i][4:]
+        texts.append('\n'.join(lines))
+    with warnings.catch_warnings(record=True) as w:
+        warnings.simplefilter('default')
+        for j, bad in enumerate(texts):
+            case = {'kind': 'repeated', 'seed': seed, 'index': j}
+            rec.case(('repeated', seed, j), j > 0, ('corrupt/repeated-in-one-process', 'nth/%d' % j), {'where': 'body', 'nth_damaged_input_of_the_process': j + 1, 'warning_filter': 'default'})
+            before = len(w)
+            try:
+                Blob.from_blob(bad.encode() if j % 2 else bad)
+                reported = any('crc' in str(x.message).lower() for x in w[before:])
+            except Exception:   # noqa
+                reported = True
+            if not reported:
+                rec.finding('corruption', 'not-reported/later-damaged-input-of-the-process', case, 'damaged input number %d loaded without any report under the default warning filter' % (j + 1))
+    return rec
+
+
 def run(tier, seed):
-    tasks = []
+    tasks = [('w_repeated', seed)]
     step = 260
     for lo in range(1, 4101, step):
         tasks.append(('w_lengths', (lo, min(4101, lo + step))))
@@ -426,6 +459,8 @@ def dispatch(task):
 
 def replay(case):
     k = case['kind']
+    if k == 'repeated':
+        return [(f['clause'], f['cause'], f['detail']) for f in w_repeated(case['seed']).findings]
     if k == 'length':
         r = w_lengths((case['n'], case['n'] + 1))
     elif k == 'corrupt':
